@@ -45,6 +45,28 @@ func (e *Engine) errorValue(tag string) Value {
 
 func int64Term(v int64) *Term { return ConstBV(uint64(v), 64) }
 
+// concretize returns the constant a term is forced to by the path condition, when there is exactly one such value
+// (e.g. the position of the first newline in a string whose line structure the harness fixed by assumptions);
+// otherwise the term itself.
+func (e *Engine) concretize(st *State, t *Term) *Term {
+	if t.IsConst() || st == nil {
+		return t
+	}
+	if e.S.Check(st.pc, nil) != Sat {
+		e.S.EndModel()
+		return t
+	}
+	v := e.S.Values(map[string]*Term{"v": t})["v"]
+	e.S.EndModel()
+	c := ConstBV(v, t.Sort.Width)
+	r := e.S.Check(st.pc, Not(Eq(t, c)))
+	e.S.EndModel()
+	if r == Unsat {
+		return c
+	}
+	return t
+}
+
 // regexMatchTerm is the uninterpreted "pattern matches somewhere in / all of subject" predicate of the regexp model.
 func (e *Engine) regexMatchTerm(pat, subj StringVal) *Term {
 	fn := "M"
@@ -261,7 +283,16 @@ func registerStubs(e *Engine) {
 		for i := len(sv.Bytes) - 1; i >= 0; i-- {
 			res = Ite(Eq(sv.Bytes[i], c), ConstBV(uint64(i), 64), res)
 		}
-		return res
+		return e.concretize(st, res)
+	}
+	e.intr["internal/bytealg.CountString"] = func(e *Engine, st *State, cc *ssa.CallCommon, a []Value) Value {
+		sv := a[0].(StringVal)
+		c := asTerm(a[1])
+		res := ConstBV(0, 64)
+		for _, b := range sv.Bytes {
+			res = BVBin("bvadd", res, Ite(Eq(b, c), ConstBV(1, 64), ConstBV(0, 64)))
+		}
+		return e.concretize(st, res)
 	}
 	e.intr["(*strings.Builder).Grow"] = func(e *Engine, st *State, cc *ssa.CallCommon, a []Value) Value { return nil }
 }
